@@ -211,7 +211,12 @@ class RemoteProxy(BaseProxy):
         if asyncio.current_task() is not self._reader_task:
             # (_handle_remote_requests calls this method itself when
             # something goes wrong; a task cannot await itself.)
-            await self._reader_task
+            # Now that the channel is closed, no further requests will
+            # arrive. Usually, the reader task has been told so already
+            # and finishes by itself, but if the channel's receiver has
+            # died from a connection error, it would wait forever.
+            self._reader_task.cancel()
+            await asyncio.wait([self._reader_task])
 
 
 def extract_version(meta: Meta) -> List[int]:
